@@ -179,6 +179,8 @@ theorem stmt_lookup_unchanged (sc : Schema) (cfg : Cfg) (t : Table) (args : Args
     exact lookup_insert sc t _ k hk
   | failing s => simp [stmtPhase1] at h
   | upsert rows assign => exact absurd hs (by simp [StmtWF])
+  | updateLim sets w ord lim => exact absurd hs (by simp [StmtWF])
+  | deleteLim w ord lim => exact absurd hs (by simp [StmtWF])
 
 /-- a whole local transaction: a key outside the lock keys is looked up as before -/
 theorem local_lookup_unchanged (sc : Schema) (cfg : Cfg) : ∀ (ltx : LocalTx) (t t' : Table) (b : Branch),
